@@ -7,9 +7,9 @@ ATTR = {'error-type': 'type', 'error-tag': 'tag', 'error-severity': 'severity', 
         'error-message': 'message', 'error-info': 'info'}
 SEVS = ['error', 'warning', None, 'Error', ' error ', 'fatal']
 MSGS = ['VLAN with the same name exists', 'statement not found', 'Object Exists', '  padded text  ', 'x', 'abc def ghi', 'ABC',
-        'config lock held', 'ünïcode ★ message', None]
+        'config lock held', 'ünïcode ★ message', 'Ungültige Größe', 'τέλος', None]
 PATS = ['*VLAN with the same name exists*', 'statement not found', '*not found', 'object*', '*def*', 'abc', '*', 'x*', '*x', '**',
-        'ABC DEF GHI', '  padded text', 'no error given', '*lock*', 'ünïcode ★ message']
+        'ABC DEF GHI', '  padded text', 'no error given', '*lock*', 'ünïcode ★ message', '*Ungültige Größe*', 'ungültige grö*', '*τέλος']
 
 
 def esc(s):
@@ -93,7 +93,8 @@ def gen_case(rng):
         pats = pats[:rng.randint(0, 1)] + [derived_pat(rng, rng.choice(msgs)) for _ in range(rng.randint(1, 2))]
     profile = 'nexus' if rng.random() < 0.15 else 'default'
     case = {'errs': errs, 'ok_too': rng.random() < 0.07, 'mode': rng.choice([0, 1, 2]), 'pats': pats, 'profile': profile,
-            'nested': rng.random() < 0.05}
+            'nested': rng.random() < 0.05, 'prefixed': rng.random() < 0.25,
+            'op': rng.choice(['get_config'] * 4 + ['get', 'discard_changes', 'close_session', 'kill_session', 'lock', 'commit'])}
     if rng.random() < 0.06:
         # the mode and the exempt list travel from the connect parameters (errors_params) through the public connect_uds entry point
         case['via'] = 'connect'
@@ -111,7 +112,23 @@ def reply_xml(case, mid):
         body += '<rpc-error>%s</rpc-error>' % inner
     if case.get('nested') and body:
         body = '<data>%s</data>' % body
-    return '<rpc-reply message-id="%s" xmlns="%s">%s%s</rpc-reply>' % (mid, BASE_NS, '<ok/>' if case['ok_too'] else '', body)
+    doc = '<rpc-reply message-id="%s" xmlns="%s">%s%s</rpc-reply>' % (mid, BASE_NS, '<ok/>' if case['ok_too'] else '', body)
+    if case.get('prefixed'):
+        # the same document with the base namespace bound to a prefix; the content of error-info keeps its own (absent) namespace
+        import re as _re
+        keep = {}
+
+        def stash(m):
+            keep['@%d@' % len(keep)] = m.group(0)
+            return '@%d@' % (len(keep) - 1)
+        t = _re.sub(r'<error-info>.*?</error-info>', stash, doc, flags=_re.S)
+        t = t.replace(' xmlns="%s"' % BASE_NS, ' xmlns:nc="%s"' % BASE_NS)
+        t = _re.sub(r'<(/?)([a-z])', r'<\1nc:\2', t)
+        for kk, v in keep.items():
+            inner = v[len('<error-info>'):-len('</error-info>')]
+            t = t.replace(kk, '<nc:error-info>%s</nc:error-info>' % inner)
+        return t
+    return doc
 
 
 def spec_matches(pat, text):
@@ -239,10 +256,14 @@ class C06(Check):
             m.timeout = 5
         else:
             m, s, dh = make_manager(profile=case['profile'], responder=lambda req, mid: reply_xml(case, mid),
-                                    ignore_errors=case['pats'] or None, raise_mode=case['mode'])
+                                    ignore_errors=case['pats'] or None, raise_mode=case['mode'],
+                                    server_caps=__import__('gen.optable', fromlist=['x']).ALL_CAPS)
         try:
+            # the decision is the same for every operation: the reply is answered to one of several standard calls
+            self._op = case.get('op', 'get_config')
             return self._call(m)
         finally:
+            self._op = 'get_config'
             if srv is not None:
                 try:
                     m._session.close()
@@ -256,7 +277,10 @@ class C06(Check):
         def err_row(e):
             return [getattr(e, ATTR[f]) for f in FIELDS]
         try:
-            r = m.get_config(source='running')
+            op = getattr(self, '_op', 'get_config')
+            r = {'get_config': lambda: m.get_config(source='running'), 'get': lambda: m.get(), 'discard_changes': lambda: m.discard_changes(),
+                 'close_session': lambda: m.close_session(), 'kill_session': lambda: m.kill_session('7'), 'lock': lambda: m.lock('running'),
+                 'commit': lambda: m.commit()}[op]()
         except RPCError as e:
             return {'raised': True, 'severity': e.severity, 'n': None if e.errlist is None else len(e.errlist),
                     'errors': [err_row(x) for x in (e.errlist if e.errlist is not None else [e])]}
